@@ -31,6 +31,20 @@
 (*   fl.uncl   _tovalues_single tests `_b2v_unclaimed is not None`         *)
 (*             (FALSE: truthiness, an empty Values string of the ".."      *)
 (*             entry counts as "no unclaimed entry")                       *)
+(*   fl.vbx    _v2b_dict (tobinary / items) is keyed by the Values string  *)
+(*             as it is (FALSE: a case-insensitive dictionary, NocaseDict: *)
+(*             strings differing only in lexical case share one key, the   *)
+(*             later assignment replaces key and value in place)           *)
+(* fl.len = the lexeme classes of malformed entries (BadClasses) that the  *)
+(*          integer reader accepts as if they were well-formed ({} = the   *)
+(*          DSP0004 patterns over US-ASCII, anchored at the very end):     *)
+(*   "nl"     `$` instead of `\Z` in the integerValue / range patterns     *)
+(*            (the tree as it is: "5\n", "1..5\n" accepted)                *)
+(*   "udigit" str.isdigit() / int() fast path in front of the patterns     *)
+(*   "ws", "under"  int() as fallback                                      *)
+(* fl.itl = TRUE: items() iterates a list of all entries (proposed         *)
+(*          repair); FALSE = the tree as it is: items() iterates           *)
+(*          _v2b_dict, entries with a repeated Values string collapse      *)
 (***************************************************************************)
 EXTENDS ValueMap
 
@@ -38,9 +52,32 @@ Ok2(l, h) == [t |-> "ok", lo |-> l, hi |-> h, x |-> ""]
 Ex(n) == [t |-> "exc", lo |-> 0, hi |-> 0, x |-> n]
 
 Legacy == [trunc |-> FALSE, guard |-> FALSE, oct0 |-> FALSE,
-           skip |-> TRUE, uncl |-> TRUE]
+           skip |-> TRUE, uncl |-> TRUE, vbx |-> TRUE, len |-> {"nl"},
+           itl |-> FALSE]
+(* the tree as it is (IndexError / RecursionError repaired) *)
+AsIs == [trunc |-> TRUE, guard |-> TRUE, oct0 |-> FALSE,
+         skip |-> TRUE, uncl |-> TRUE, vbx |-> TRUE, len |-> {"nl"},
+         itl |-> FALSE]
 Fixed == [trunc |-> TRUE, guard |-> TRUE, oct0 |-> TRUE,
-          skip |-> TRUE, uncl |-> TRUE]
+          skip |-> TRUE, uncl |-> TRUE, vbx |-> TRUE, len |-> {},
+          itl |-> TRUE]
+
+(* the entry as the integer reader of variant fl sees it: a malformed     *)
+(* entry of a class it is too lenient for reads as the well-formed entry  *)
+(* its fields describe                                                     *)
+Lx(x, fl) ==
+  IF x.k = "BAD" /\ x.nt \in fl.len
+  THEN [x EXCEPT !.k = IF x.lopen \/ x.hopen \/ x.lo # x.hi THEN "R" ELSE "S",
+                 !.nt = "dec"]
+  ELSE x
+LxMap(m, fl) == [i \in DOMAIN m |-> Lx(m[i], fl)]
+
+(* key of a case-insensitive dictionary, for the Values strings the model *)
+(* universe uses (VectorsC in ValueMapImpl.tla)                            *)
+Fold(s) == CASE s \in {"AB", "Ab", "aB"} -> "ab"
+             [] s \in {"CD", "Cd"} -> "cd"
+             [] OTHER -> s
+Key(s, fl) == IF fl.vbx THEN s ELSE Fold(s)
 
 (* _to_int *)
 ToInt(ent, n, fl) ==
@@ -96,18 +133,18 @@ VT(i, m, nv, tmin, tmax, fuel, fl) ==
 
 (* tables: sd = _b2v_single_dict, rl = _b2v_range_tuple_list,              *)
 (* un = _b2v_unclaimed, vb = _v2b_dict (OrderedDict: a re-assigned key     *)
-(* keeps its position)                                                     *)
+(* keeps its position), il = list of all entries (items() of the repair)   *)
 Tables0 == [sd |-> << >>, rl |-> << >>, un |-> [has |-> FALSE, s |-> ""],
-            vb |-> << >>]
+            vb |-> << >>, il |-> << >>]
 Bin(s, k, lo, hi) == [s |-> s, k |-> k, lo |-> lo, hi |-> hi]
 
 PutSd(q, n, s) ==
   IF \E j \in DOMAIN q : q[j].n = n
   THEN [q EXCEPT ![CHOOSE j \in DOMAIN q : q[j].n = n] = [n |-> n, s |-> s]]
   ELSE Append(q, [n |-> n, s |-> s])
-PutVb(q, b) ==
-  IF \E j \in DOMAIN q : q[j].s = b.s
-  THEN [q EXCEPT ![CHOOSE j \in DOMAIN q : q[j].s = b.s] = b]
+PutVb(q, b, fl) ==
+  IF \E j \in DOMAIN q : Key(q[j].s, fl) = Key(b.s, fl)
+  THEN [q EXCEPT ![CHOOSE j \in DOMAIN q : Key(q[j].s, fl) = Key(b.s, fl)] = b]
   ELSE Append(q, b)
 
 RECURSIVE Build(_, _, _, _, _, _, _)
@@ -117,19 +154,22 @@ Build(i, m, vl, st, tmin, tmax, fl) ==
   ELSE IF m[i].k = "U"
   THEN Build(i + 1, m, vl,
              [st EXCEPT !.un = [has |-> TRUE, s |-> vl[i]],
-                        !.vb = PutVb(@, Bin(vl[i], "N", 0, 0))],
+                        !.vb = PutVb(@, Bin(vl[i], "N", 0, 0), fl),
+                        !.il = Append(@, Bin(vl[i], "N", 0, 0))],
              tmin, tmax, fl)
   ELSE LET r == VT(i, m, Len(vl), tmin, tmax, Len(m) + 2, fl) IN
        IF r.t = "exc" THEN [t |-> "exc", st |-> st, x |-> r.x]
        ELSE IF r.lo = r.hi
        THEN Build(i + 1, m, vl,
                   [st EXCEPT !.sd = PutSd(@, r.lo, vl[i]),
-                             !.vb = PutVb(@, Bin(vl[i], "S", r.lo, r.lo))],
+                             !.vb = PutVb(@, Bin(vl[i], "S", r.lo, r.lo), fl),
+                             !.il = Append(@, Bin(vl[i], "S", r.lo, r.lo))],
                   tmin, tmax, fl)
        ELSE Build(i + 1, m, vl,
                   [st EXCEPT !.rl = Append(@, [lo |-> r.lo, hi |-> r.hi,
                                                s |-> vl[i]]),
-                             !.vb = PutVb(@, Bin(vl[i], "R", r.lo, r.hi))],
+                             !.vb = PutVb(@, Bin(vl[i], "R", r.lo, r.hi), fl),
+                             !.il = Append(@, Bin(vl[i], "R", r.lo, r.hi))],
                   tmin, tmax, fl)
 
 (* _create_for_element, first part: values_list after the size             *)
@@ -151,7 +191,7 @@ Recon(e, fl) ==
 Create(e, fl) ==
   LET r == Recon(e, fl) IN
   IF r.t = "exc" THEN [t |-> "exc", st |-> Tables0, x |-> r.x]
-  ELSE Build(1, EffMap(e), r.vl, Tables0, e.tmin, e.tmax, fl)
+  ELSE Build(1, LxMap(EffMap(e), fl), r.vl, Tables0, e.tmin, e.tmax, fl)
 
 (* _tovalues_single *)
 ImplTovalues(st, v, fl) ==
@@ -163,10 +203,14 @@ ImplTovalues(st, v, fl) ==
        ELSE Res(FALSE, "ValueError")
 
 (* tobinary *)
-ImplTobinary(st, s) ==
-  IF \E j \in DOMAIN st.vb : st.vb[j].s = s
-  THEN st.vb[CHOOSE j \in DOMAIN st.vb : st.vb[j].s = s]
+ImplTobinary(st, s, fl) ==
+  IF \E j \in DOMAIN st.vb : Key(st.vb[j].s, fl) = Key(s, fl)
+  THEN [st.vb[CHOOSE j \in DOMAIN st.vb : Key(st.vb[j].s, fl) = Key(s, fl)]
+          EXCEPT !.s = s]
   ELSE Bin(s, "E", 0, 0)
+
+(* items() *)
+ImplItems(st, fl) == IF fl.itl THEN st.il ELSE st.vb
 
 (* the complete observation the code-shaped machine predicts for vector e, *)
 (* probing tovalues at every v of the set V and tobinary at the strings Q  *)
@@ -178,8 +222,8 @@ ImplEvent(e, fl, Vseq, Q) ==
                  !.tv = [j \in DOMAIN Vseq |->
                            LET r == ImplTovalues(c.st, Vseq[j], fl) IN
                            [lo |-> Vseq[j], hi |-> Vseq[j], ok |-> r.ok, s |-> r.s]],
-                 !.tb = [j \in DOMAIN Q |-> ImplTobinary(c.st, Q[j])],
-                 !.items = c.st.vb]
+                 !.tb = [j \in DOMAIN Q |-> ImplTobinary(c.st, Q[j], fl)],
+                 !.items = ImplItems(c.st, fl)]
 
 (* drift of an observed event against the code-shaped machine, variant fl  *)
 (* (never a verdict).  Resolved bounds of the machine are its break points *)
@@ -199,8 +243,10 @@ Drift(e, fl) ==
                       {b \in ImplBreak(c.st) : g.lo <= b /\ b <= g.hi}) :
                ImplTovalues(c.st, v, fl) = Res(g.ok, g.s))
        \cup F("tobinary",
-              \A j \in DOMAIN e.tb : SameBin(ImplTobinary(c.st, e.tb[j].s), e.tb[j]))
+              \A j \in DOMAIN e.tb :
+                 SameBin(ImplTobinary(c.st, e.tb[j].s, fl), e.tb[j]))
        \cup F("items",
-              /\ Len(e.items) = Len(c.st.vb)
-              /\ \A j \in DOMAIN e.items : SameBin(e.items[j], c.st.vb[j]))
+              LET it == ImplItems(c.st, fl) IN
+              /\ Len(e.items) = Len(it)
+              /\ \A j \in DOMAIN e.items : SameBin(e.items[j], it[j]))
 =============================================================================
